@@ -459,6 +459,19 @@ class World:
         class ConfigParser:
             def __init__(self, *a, **k):
                 self._d = {}
+                self._inline = bool(k.get("inline_comment_prefixes"))
+                for opt in k:
+                    if opt not in ("inline_comment_prefixes", "interpolation", "allow_no_value", "strict"):
+                        raise Unsupported("ConfigParser(%s=...)" % opt)
+
+            def _val(self, v):
+                # with inline comment prefixes a value is cut at the first ' #' / ' ;'
+                if self._inline and isinstance(v, OStr) and v._nonempty is not False:
+                    if getattr(v, "_inline_cut", None) is None:
+                        v._inline_cut = OStr(v.name + ".before-inline-comment") if eng().choice(v.name + ".has-inline-comment", 2) else False
+                    if v._inline_cut is not False:
+                        return v._inline_cut
+                return v
 
             def read(self, path, encoding=None):
                 with fs.open(path, "rb") as fd:
@@ -466,7 +479,7 @@ class World:
                 seg = data.segs[0] if len(data.segs) == 1 else None
                 if not seg or seg[0] != "T" or not (isinstance(seg[1], tuple) and seg[1][0] == "INI"):
                     raise Unsupported("configparser.read of a non-INI token")
-                self._d = {sec: {str(k).lower(): v for k, v in kv.items()} for sec, kv in seg[1][1].items()}
+                self._d = {sec: {str(k).lower(): self._val(v) for k, v in kv.items()} for sec, kv in seg[1][1].items()}
                 return [path]
 
             def __getitem__(self, sec):
